@@ -425,13 +425,18 @@ def check_fibers(case, rec):
         if ftree(x) != before:
             raise Violation("operand-changed", f"{what}: operand changed from {before} to {ftree(x)}")
 
-    def value_form(fn, x, y, want, what):
+    def value_form(fn, x, y, want, what, within=None):
         bx = ftree(x) if isinstance(x, Fiber) else None
         by = ftree(y) if isinstance(y, Fiber) else None
         r = fn(x, y)
         if r is x or r is y:
             raise Violation("aliasing", f"{what} returned one of its operands")
         same(fcontent(r, d, what), want, what)
+        # a product has elements only where the operands have them ("over the
+        # intersection", "scale the stored elements")
+        if within is not None and not set(r.coords) <= within:
+            raise Violation("fiber-coords", f"{what}: result stores coordinates {r.coords}, the operands only share "
+                                            f"{sorted(within)}  [f={tf} g={tg} s={s!r} shape={shape}]")
         if bx is not None:
             untouched(x, bx, what)
         if by is not None:
@@ -460,8 +465,9 @@ def check_fibers(case, rec):
     add, mul = o_add(cf, cg), o_mul(cf, cg)
     value_form(operator.add, mk_f(), mk_g(), add, "f + g")
     value_form(operator.add, mk_g(), mk_f(), add, "g + f")
-    value_form(operator.mul, mk_f(), mk_g(), mul, "f * g")
-    value_form(operator.mul, mk_g(), mk_f(), mul, "g * f")
+    stored_f, stored_g = {c for c, _ in tf}, {c for c, _ in tg}
+    value_form(operator.mul, mk_f(), mk_g(), mul, "f * g", within=stored_f & stored_g)
+    value_form(operator.mul, mk_g(), mk_f(), mul, "g * f", within=stored_f & stored_g)
     inplace_form(operator.iadd, mk_g(), add, "f += g")
     # P4: the in-place product keeps the top-level elements of f that g does not have
     top_g = {p[0] for p in cg}
@@ -472,8 +478,8 @@ def check_fibers(case, rec):
         adds, muls = o_add_scalar(cf, s, shape), o_mul_scalar(cf, s)
         value_form(operator.add, mk_f(), mk_s(), adds, "f + s")
         value_form(operator.add, mk_s(), mk_f(), adds, "s + f")
-        value_form(operator.mul, mk_f(), mk_s(), muls, "f * s")
-        value_form(operator.mul, mk_s(), mk_f(), muls, "s * f")
+        value_form(operator.mul, mk_f(), mk_s(), muls, "f * s", within=stored_f)
+        value_form(operator.mul, mk_s(), mk_f(), muls, "s * f", within=stored_f)
         inplace_form(operator.iadd, mk_s(), adds, "f += s")
         inplace_form(operator.imul, mk_s(), muls, "f *= s")
 
